@@ -143,6 +143,10 @@ VARIANTS = {
     ],
     'C06': [
         fire('hash-order-sensitive', D, 'Dict.sym_hash', 'frozenset(', 'tuple(', 'C06.a', 'Dict.sym_hash'),
+        fire('dict-children-builtin-hash', D, 'Dict.sym_hash', '(k, base.sym_hash(v))', '(k, hash(v))', 'C06.a', 'Dict.sym_hash#children'),
+        silent('list-hash-explicit-loop', L, 'List.sym_hash',
+               'return base.sym_hash((self.__class__, tuple([base.sym_hash(e) for e in self.sym_values()])))',
+               'hs = []\n    for item in self.sym_values():\n        hs.append(base.sym_hash(item))\n    return base.sym_hash((self.__class__, tuple(hs)))'),
         fire('ne-not-negation', B, 'ne', 'return not eq(left, right)', 'return not eq(right, right)', 'C06.d', 'base.ne'),
         fire('bool-own-rank', B, '_type_order', 'isinstance(value, (bool, int, float))', 'isinstance(value, (int, float))',
              'C06.c', '_type_order'),
